@@ -1,4 +1,5 @@
 import ParryModel.C08.SchedLemmas
+import ParryModel.C08.BvttOnceLemmas
 import ParryModel.C08.Theorems8
 /-!
 # C08 property theorems, part 9: all schedules — the parallel traversals as nondeterministic work-lists
@@ -62,6 +63,52 @@ theorem bvtt_any_schedule (q1 q2 : Q K) (pos : Option (Iso3 K)) (res : List (Nat
     simp only [List.mem_singleton] at hz
     subst hz
     exact ⟨e, (reach_iff_star q1 q2 pos _ _).2 hs, hx⟩
+
+/-- **`bvtt_terminates_each_pair_once`: the simultaneous traversal returns, and reports no pair twice.**  On two trees
+satisfying `Inv` and `DataOk` (fewer than `u32::MAX` nodes each), `traverse_bvtt` with the library's
+`BoundingVolumeIntersectionsSimultaneousVisitor` pops every entry `(node1, node2)` at most once — the entries on the
+stack span pairwise disjoint products of subtrees —, so the stack loop ends after at most `nodes1 * nodes2` pops
+(no index panic; the model's fuel is never the reason for `none`) and the list of reported pairs has no repetition.
+Together with `bvtt_sound` and `bvtt_complete`: exactly the pairs of live leaves whose lane boxes intersect, each once. -/
+theorem bvtt_terminates_each_pair_once (q1 q2 : Q K) (pos : Option (Iso3 K)) (h1 : Inv q1) (h2 : Inv q2)
+    (s1 : q1.nodes.size < MAXN) (s2 : q2.nodes.size < MAXN) (dt1 : DataOk q1) (dt2 : DataOk q2) :
+    ∃ res : List (Nat × Nat), traverseBvtt q1 q2 pos = some res ∧ res.Nodup := by
+  unfold traverseBvtt
+  by_cases h0 : (decide (q1.nodes.size = 0) || decide (q2.nodes.size = 0)) = true
+  · rw [if_pos h0]; exact ⟨[], rfl, List.nodup_nil⟩
+  · rw [if_neg h0]
+    simp only [Bool.or_eq_true, decide_eq_true_eq, not_or] at h0
+    obtain ⟨d1, hd1⟩ := h1.depth
+    obtain ⟨d2, hd2⟩ := h2.depth
+    have hd1' : IsDepth q1 d1 := hd1
+    have hd2' : IsDepth q2 d2 := hd2
+    refine bvttLoop_once pos h1 h2 s1 s2 dt1 dt2 hd1' hd2' _ [(0, 0)] [] [] (Front2.root h1 h2 (by omega) (by omega))
+      ⟨List.nodup_nil, by simp⟩ ?_
+    simp only [List.length_nil, Nat.add_zero]
+    exact Nat.mul_le_mul (by omega) (by omega)
+
+/-- the same for `traverse_modified_bvtt` (the CHANGED-pruned variant) -/
+theorem bvtt_modified_terminates_each_pair_once (q1 q2 : Q K) (pos : Option (Iso3 K)) (h1 : Inv q1) (h2 : Inv q2)
+    (s1 : q1.nodes.size < MAXN) (s2 : q2.nodes.size < MAXN) (dt1 : DataOk q1) (dt2 : DataOk q2) :
+    ∃ res : List (Nat × Nat), traverseModifiedBvtt q1 q2 pos = some res ∧ res.Nodup := by
+  unfold traverseModifiedBvtt
+  cases hr : q1.nodes[0]? with
+  | none => exact ⟨[], rfl, List.nodup_nil⟩
+  | some r1 =>
+    simp only
+    by_cases h0 : (decide (q2.nodes.size = 0) || !r1.changed) = true
+    · rw [if_pos h0]; exact ⟨[], rfl, List.nodup_nil⟩
+    · rw [if_neg h0]
+      simp only [Bool.or_eq_true, decide_eq_true_eq, not_or] at h0
+      have p1 : 0 < q1.nodes.size := (Array.getElem?_eq_some_iff.mp hr).1
+      obtain ⟨d1, hd1⟩ := h1.depth
+      obtain ⟨d2, hd2⟩ := h2.depth
+      have hd1' : IsDepth q1 d1 := hd1
+      have hd2' : IsDepth q2 d2 := hd2
+      refine bvttModLoop_once pos h1 h2 s1 s2 dt1 dt2 hd1' hd2' _ [(0, 0)] [] [] (Front2.root h1 h2 p1 (by omega))
+        ⟨List.nodup_nil, by simp⟩ ?_
+      simp only [List.length_nil, Nat.add_zero]
+      exact Nat.mul_le_mul (by omega) (by omega)
 
 /-- the sequential stack order is itself a run (non-vacuity of `Run`): a two-entry example with a branching step -/
 example : Run (fun a b : Nat => a = 0 ∧ (b = 1 ∨ b = 2)) [0] [0, 2, 1] := by
